@@ -35,6 +35,8 @@ def main():
     pkg = pkg.replace(wt + "/", "").strip("./")
     tests = re.findall(r"^func (Test\w+)\(", open(demo).read(), re.M)
     run = "^(" + "|".join(tests) + ")$"
+    mt = re.search(r"^//go:build (\w+)\s*$", open(demo).read(), re.M)
+    tags = ("-tags %s " % mt.group(1)) if mt else ""
     res = {}
     sh("git checkout -- . && rm -f %s/zz_seed_demo_test.go" % pkg, wt)
     rc, out = sh("git apply %s" % patch, wt)
@@ -49,12 +51,12 @@ def main():
         if not res["suite_with_change_passes"]:
             res["suite_output"] = out[-800:]
         shutil.copy(demo, os.path.join(wt, pkg, "zz_seed_demo_test.go"))
-        rc, out = sh("timeout 300 go test -count=1 ./%s/ -run '%s' 2>&1 | tail -15" % (pkg, run), wt)
+        rc, out = sh("timeout 300 go test %s-count=1 ./%s/ -run '%s' 2>&1 | tail -15" % (tags, pkg, run), wt)
         res["demo_fails_with_change"] = "FAIL" in out or "panic" in out
         res["demo_output_with_change"] = out[-600:]
     finally:
         sh("git apply -R %s" % patch, wt)
-    rc, out = sh("timeout 300 go test -count=1 ./%s/ -run '%s' 2>&1 | tail -5" % (pkg, run), wt)
+    rc, out = sh("timeout 300 go test %s-count=1 ./%s/ -run '%s' 2>&1 | tail -5" % (tags, pkg, run), wt)
     res["demo_passes_without_change"] = ("ok" in out) and ("FAIL" not in out)
     sh("rm -f %s/zz_seed_demo_test.go; git checkout -- ." % pkg, wt)
     print("confirmation:", {k: v for k, v in res.items() if not k.endswith("output")})
